@@ -6,20 +6,19 @@ import IdspModel.Lemmas.Atan2Tab04
 import IdspModel.Lemmas.Atan2Tab05
 import IdspModel.Lemmas.Atan2Tab06
 import IdspModel.Lemmas.Atan2Tab07
-import IdspModel.Lemmas.Atan2Tab08
-import IdspModel.Lemmas.Atan2Tab09
 /-!
-# `atani` on every quotient field `0 … 81920`: the glued table
+# `atani` on every quotient field `0 … 2^16`: the glued table
 
-`atanQ q` is `atani` (checked mode) at `q·2^15 + 2^14`.  For every `q ≤ 81920` it succeeds (no intermediate
-overflow), its value lies in `[0, 609661461]` (`< 2^30`), and it is non-decreasing in `q`.  Complete kernel
-evaluation in 10 chunks of 8193 points.
+`atanQ q` is `atani` (checked mode) at `q·2^15 + 2^14`.  For every `q ≤ 65536` (all that the
+clamped `divi` produces) it succeeds (no intermediate
+overflow), its value lies in `[0, 2^29 + 2599]` (`< 2^30`), and it is non-decreasing in `q`.  Complete kernel
+evaluation in 8 chunks of 8193 points.
 -/
 namespace Idsp
 
-theorem atanRun_all (k : Nat) (hk : k < 10) : atanRun (8192 * k) 8193 = true := by
-  have h : k = 0 ∨ k = 1 ∨ k = 2 ∨ k = 3 ∨ k = 4 ∨ k = 5 ∨ k = 6 ∨ k = 7 ∨ k = 8 ∨ k = 9 := by omega
-  rcases h with rfl | rfl | rfl | rfl | rfl | rfl | rfl | rfl | rfl | rfl
+theorem atanRun_all (k : Nat) (hk : k < 8) : atanRun (8192 * k) 8193 = true := by
+  have h : k = 0 ∨ k = 1 ∨ k = 2 ∨ k = 3 ∨ k = 4 ∨ k = 5 ∨ k = 6 ∨ k = 7 := by omega
+  rcases h with rfl | rfl | rfl | rfl | rfl | rfl | rfl | rfl
   · exact atanTab0
   · exact atanTab1
   · exact atanTab2
@@ -28,13 +27,11 @@ theorem atanRun_all (k : Nat) (hk : k < 10) : atanRun (8192 * k) 8193 = true := 
   · exact atanTab5
   · exact atanTab6
   · exact atanTab7
-  · exact atanTab8
-  · exact atanTab9
 
 /-- two consecutive table entries -/
-theorem atanQ_step (q : Nat) (h : q < 81920) :
+theorem atanQ_step (q : Nat) (h : q < 65536) :
     ∃ r r' : Int, atanQ q = .ok r ∧ atanQ (q + 1) = .ok r' ∧ 0 ≤ r ∧ r ≤ r' ∧ r' ≤ atanMax := by
-  have hk : q / 8192 < 10 := by omega
+  have hk : q / 8192 < 8 := by omega
   have e : 8192 * (q / 8192) + q % 8192 = q := Nat.div_add_mod q 8192
   obtain ⟨r, hr, _, h2⟩ := atanRun_spec (atanRun_all _ hk) (q % 8192) (by omega)
   obtain ⟨r', hr', hle⟩ := h2 (by omega)
@@ -48,17 +45,17 @@ theorem atanQ_step (q : Nat) (h : q < 81920) :
   unfold atanMax; omega
 
 /-- every table entry exists and is in `[0, atanMax]` -/
-theorem atanQ_ok (q : Nat) (h : q ≤ 81920) : ∃ r : Int, atanQ q = .ok r ∧ 0 ≤ r ∧ r ≤ atanMax := by
-  rcases Nat.lt_or_ge q 81920 with hlt | hge
+theorem atanQ_ok (q : Nat) (h : q ≤ 65536) : ∃ r : Int, atanQ q = .ok r ∧ 0 ≤ r ∧ r ≤ atanMax := by
+  rcases Nat.lt_or_ge q 65536 with hlt | hge
   · obtain ⟨r, r', hr, _, h0, hle, hmax⟩ := atanQ_step q hlt
     exact ⟨r, hr, h0, by omega⟩
-  · have : q = 81919 + 1 := by omega
+  · have : q = 65535 + 1 := by omega
     subst this
-    obtain ⟨r, r', _, hr', h0, hle, hmax⟩ := atanQ_step 81919 (by omega)
+    obtain ⟨r, r', _, hr', h0, hle, hmax⟩ := atanQ_step 65535 (by omega)
     exact ⟨r', hr', by omega, hmax⟩
 
 /-- the table is non-decreasing -/
-theorem atanQ_mono_add : ∀ (d q : Nat), q + d ≤ 81920 → ∀ r r' : Int,
+theorem atanQ_mono_add : ∀ (d q : Nat), q + d ≤ 65536 → ∀ r r' : Int,
     atanQ q = .ok r → atanQ (q + d) = .ok r' → r ≤ r' := by
   intro d
   induction d with
@@ -73,15 +70,13 @@ theorem atanQ_mono_add : ∀ (d q : Nat), q + d ≤ 81920 → ∀ r r' : Int,
     have : s' = r' := Except.ok.inj (hs'.symm.trans hr')
     omega
 
-theorem atanQ_mono {q q' : Nat} (h : q ≤ q') (h' : q' ≤ 81920) {r r' : Int}
+theorem atanQ_mono {q q' : Nat} (h : q ≤ q') (h' : q' ≤ 65536) {r r' : Int}
     (hr : atanQ q = .ok r) (hr' : atanQ q' = .ok r') : r ≤ r' := by
   obtain ⟨d, rfl⟩ : ∃ d, q' = q + d := ⟨q' - q, by omega⟩
   exact atanQ_mono_add d q h' r r' hr hr'
 
 theorem atanQ_0 : atanQ 0 = .ok 5215 := atanQN_some (by decide +kernel)
 theorem atanQ_65536 : atanQ 65536 = .ok 536873511 := atanQN_some (by decide +kernel)
-theorem atanQ_65537 : atanQ 65537 = .ok 536878719 := atanQN_some (by decide +kernel)
-theorem atanQ_81920 : atanQ 81920 = .ok 609661461 := atanQN_some (by decide +kernel)
 
 /-- `atani 0 = 0` (the `x ≤ 1` case of `divi`) -/
 theorem atani_zero : atani .checked 0 = .ok 0 := ataniN_ok (x := 0) (r := 0) (by decide +kernel)
